@@ -25,3 +25,4 @@ for d in seeded/C*-*/; do
   echo "| $id | $prop | $summ | $needs | $res |" >> $out
   echo "$id:$res"
 done
+/verif/tools/regen.sh
